@@ -515,13 +515,25 @@ public:
         {
             if (!um->isImplicitAccess())
                 base = um->getBase();
-            return um->getMemberName().getAsString();
+            std::string q;
+            if (auto* nns = um->getQualifier())
+            {
+                llvm::raw_string_ostream os(q);
+                nns->print(os, pp);
+            }
+            return q + um->getMemberName().getAsString();
         }
         if (auto* dm = dyn_cast<CXXDependentScopeMemberExpr>(callee))
         {
             if (!dm->isImplicitAccess())
                 base = dm->getBase();
-            return dm->getMember().getAsString();
+            std::string q;
+            if (auto* nns = dm->getQualifier())
+            {
+                llvm::raw_string_ostream os(q);
+                nns->print(os, pp);
+            }
+            return q + dm->getMember().getAsString();
         }
         if (auto* dr = dyn_cast<DependentScopeDeclRefExpr>(callee))
         {
